@@ -83,7 +83,9 @@ func runC17(c *Ctx) error {
 						c17Msg{UUID: "u-mid2", Payload: "p", Meta: metas[1], Env: "valid", Dest: "dest-7"},
 						c17Msg{UUID: "bad7", Payload: `{"event":"OrderPlaced","n":1}`, Meta: metas[2], Env: "plainjson"},
 						// a destination that has the same NAME as the forwarder topic (another broker, a second forwarder behind this one) is a destination
-						c17Msg{UUID: "u-samename", Payload: "p", Meta: metas[1], Env: "valid", Dest: "<fwd>"})
+						c17Msg{UUID: "u-samename", Payload: "p", Meta: metas[1], Env: "valid", Dest: "<fwd>"},
+						// control characters (the ones JSON has no short escape for) in the UUID, the metadata and the destination
+						c17Msg{UUID: "u-ctl \x1f\a\x7f", Payload: "p\x00", Meta: map[string]string{"k\x1f": "v\x00\v\x7f"}, Env: "valid", Dest: "dest-\x1f"})
 				}
 				cases = append(cases, cs)
 				if comp == "forwarder" && fi < 2 {
